@@ -28,6 +28,9 @@ func run() int {
 	if prop == "_worker" {
 		return checks.Worker(os.Args[2:])
 	}
+	if prop == "_c01fresh" {
+		return checks.C01Fresh(os.Args[2])
+	}
 	if tier == "--replay" {
 		if len(os.Args) < 4 {
 			fmt.Println("missing replay path")
